@@ -187,6 +187,10 @@ impl Run {
         }
     }
 
+    pub fn samples_empty(&self) -> bool {
+        self.samples.is_empty()
+    }
+
     pub fn has_violations(&self) -> bool {
         !self.violations.is_empty()
     }
